@@ -203,6 +203,41 @@ def compile_props(pid, extra_files=()):
     return results
 
 
+def coqchk(pid):
+    """independent re-check of the compiled property file and everything it depends on;
+    returns (ok, axioms, tail of output)"""
+    p = subprocess.run(["timeout", "1500", "coqchk", "-silent", "-o", "-Q", "coq", "ACN", "ACN.Props.%s" % pid],
+                       cwd=ROOT, stdout=subprocess.PIPE, stderr=subprocess.STDOUT, text=True)
+    axioms = []
+    m = re.search(r"\* Axioms:\s*(.*?)(?:\n\s*\n|\* |\Z)", p.stdout, re.S)
+    if m:
+        axioms = [a.strip() for a in m.group(1).split("\n") if a.strip() and a.strip() != "<none>"]
+    return p.returncode == 0, axioms, p.stdout[-1500:]
+
+
+def shrink_list(items, still_fails, max_rounds=200):
+    """delta-debugging style minimisation of a list input"""
+    items = list(items)
+    n = 2
+    rounds = 0
+    while len(items) >= 2 and rounds < max_rounds:
+        rounds += 1
+        chunk = max(1, len(items) // n)
+        reduced = False
+        for i in range(0, len(items), chunk):
+            cand = items[:i] + items[i + chunk:]
+            if cand and still_fails(cand):
+                items = cand
+                n = max(n - 1, 2)
+                reduced = True
+                break
+        if not reduced:
+            if chunk == 1:
+                break
+            n = min(n * 2, len(items))
+    return items
+
+
 # ---------------------------------------------------------------------------------------------
 # correspondence shards
 # ---------------------------------------------------------------------------------------------
@@ -395,6 +430,12 @@ def run_check(mod, tier, seed, replay=None):
         if not props["ok"] and ok:
             out.failures.append(dict(kind="proof", detail=dict(file="coq/Props/%s.v" % pid,
                                                                error=props["log"][-1500:])))
+    chk = None
+    if tier == "thorough" and not out.failures:
+        okc, chk_axioms, chk_tail = coqchk(pid)
+        chk = dict(ok=okc, axioms=chk_axioms)
+        if not okc:
+            out.failures.append(dict(kind="coqchk", detail=chk_tail))
     theorems = props["theorems"]
     obligations = len(theorems)
     discharged = sum(1 for t in theorems if t.get("compiled"))
@@ -493,7 +534,7 @@ def run_check(mod, tier, seed, replay=None):
         ambiguous_skipped=ambiguous, input_distribution=dist,
         disagreements_checked=len(bad_cases),
         anchors=anchors_info(mod.GEN_GROUPS),
-        regenerated=changed, known_findings=kf_lines,
+        regenerated=changed, known_findings=kf_lines, coqchk=chk,
         gen_seconds=round(time.time() - t_gen, 1),
     )
     write_evidence(pid, tier, seed, coverage, time.time() - t0, violations,
